@@ -37,7 +37,7 @@ def thread_oracle(res):
     w = res.world
     pol = w.scn.get("policy") or {}
     mine = [v for v in w.violations if v[0] == "C08"]
-    if mine and _h2_shared(res) and pol.get("mode") == "lines":
+    if mine and _h2_shared(res) and pol.get("mode") in ("lines", "pct"):
         # One root cause: the synchronous HTTP/2 connection guards only its socket reads
         # and writes with locks; stream-id allocation, the h2 state machine, the event
         # table and the stream-slot accounting are multi-line critical sections without
@@ -125,7 +125,8 @@ class Waiter08(oracles.WaiterObserver):
 
 
 POLICIES = [{"mode": "ops", "op_p": 0.5}, {"mode": "lines", "p": 0.02},
-            {"mode": "lines", "p": 0.1}, {"mode": "lines", "p": 0.3}]
+            {"mode": "lines", "p": 0.1}, {"mode": "lines", "p": 0.3},
+            {"mode": "pct", "q": 0.004, "q_op": 0.05}, {"mode": "pct", "q": 0.02, "q_op": 0.2}]
 COMMON = {"exec": "threads", "max_callers": 4, "max_ops": 3, "p_pool_timeout": 0.0,
           "policies": POLICIES, "proxies": ["none"] * 8 + ["http", "socks"],
           "resp_opts": {"p_conn_close": 0.1}, "consume_opts": {"p_all": 0.8}}
